@@ -222,6 +222,22 @@ CHECKS["C10"] = dict(
           "compared with the reference over all points, and SELECT * on every follower compared with the reference over the points routed to its partition. "
           "non-trivial: P >= 2 / follower holds >= 1 point"))
 
+CHECKS["C12"] = dict(
+    stages=[dict(sub="c12", quick=16, thorough=160, shrink=["steps"], parallel=16, shards=16),
+            dict(sub="c12", mode="db", quick=8, thorough=64, shrink=["steps"], parallel=16, shards=16, shard_min=8, seed_salt=77)],
+    finding_key=db_finding_key,
+    assumptions=["settle points only: the harness waits until every follower's table 'tid' (SUM(one) GROUP BY pid, pid unique per point) shows what its own bookkeeping expects and stays so for 1.5 s, or 75 s pass; what was last observed is what the model is compared with",
+                 "a kill is emulated in-process: the follower's directory is copied at that instant (no flush is in progress: flushes are harness-driven), the DB closed, and the copy put back",
+                 "the link is the in-process Follow callback (fails while cut, as a broken gRPC stream does); the reconnect loop is a transcription of server.followSource (EarliestOffset = last delivered offset)",
+                 "the protocol's precondition (Repl.step_ok: announced EarliestOffset not after any table's persisted offset) is observed on every real Follow request",
+                 "the model schedules leader reads and deliveries differently from the real system between settle points; C12_follower_content makes the content at settle points schedule-independent"],
+    trusted=_DB_TRUSTED + ["VerifPartitionFor (verif hook) exposes the leader's routing function"],
+    what_fails="after follower restarts / crash images / snapshot restores / link cuts / leader restarts, with every node up again, a follower's content differs from the accepted points routed to its partition (lost or duplicated entries), or a leader's answer differs from the standalone reference",
+    rule=("clusters of 1-2 leaders x 1-3 partitions x 1-2 followers, two tables on the stream (generated 't', and 'tid' partitioned by the same keys / by pid / by d1); histories of 16-45 points in batches "
+          "interleaved with 2-6 faults from {flush, clean stop/start, kill (crash image)/start, directory snapshot, restore from snapshot, cut/uncut link, leader stop/start, slow follower}, settle points in the middle and at the end. "
+          "stage c12: per-follower multiset of applied WAL entries vs the protocol model Repl.v run on the same operations; stage c12/db: per-follower content of 't' and 4 queries on every leader vs the specification model over the accepted points. "
+          "non-trivial: every case has at least 2 faults"))
+
 CHECKS["C13"] = dict(
     stages=[dict(sub="c13", quick=5, thorough=60, shards=1)],
     assumptions=["completeness is judged against a fault-free run of the same query on the same node(s) (the leader's oracle run is repeated until its own statistics report every partition)",
